@@ -236,7 +236,7 @@ func checkC15Det(c DetCase, r *rec.Rec) error {
 		if m, err := jdx.NodeText(c.A).Diff(jdx.NodeText(c.B), opts...).RenderMerge(); err == nil {
 			s += "\n--merge--\n" + m
 		}
-		s += "\n--json--\n" + jdx.NodeText(c.A).Json() + jdx.NodeText(c.B).Yaml()
+		s += "\n--json--\n" + jdx.NodeText(c.A).Json() + jdx.NodeText(c.B).Yaml() + jdx.NodeText(c.A).Yaml()
 		if i == 0 {
 			first = s
 		} else if s != first {
@@ -269,7 +269,26 @@ func checkC15Det(c DetCase, r *rec.Rec) error {
 	return nil
 }
 
+// numberLikeKeys: object keys that a "natural" (number-aware) ordering
+// compares differently from a plain string ordering.
+var numberLikeKeys = []string{"01", "1e2", "10", "1", "2", "9", "1.5", "0x10", "a1", "a10", "a2", "A1", "-1", "+1", "1_0", "1a", "001"}
+
 func genC15Det(t *rapid.T) DetCase {
+	if gen.Chance(t, "numberLikeKeys", 30) {
+		mk := func() val.V {
+			o := map[string]val.V{}
+			for k := gen.Int(t, "nKeys", 3, 6); k > 0; k-- {
+				o[gen.Pick(t, "nlk", numberLikeKeys)] = float64(gen.Int(t, "v", 0, 3))
+			}
+			return o
+		}
+		a, b := mk(), mk()
+		if gen.Chance(t, "nested", 40) {
+			a = map[string]val.V{"x": a}
+			b = []val.V{b}
+		}
+		return DetCase{A: val.JSON(a), B: val.JSON(b), Opts: "list"}
+	}
 	pc := genPairCase(t, c01OptSets, func(p *gen.Profile) { p.MaxObj = 6 })
 	p := gen.Profile{MaxObj: 6, MaxDepth: 3}
 	m := genMergeDoc(t, gen.Object(t, p, 0))
